@@ -398,30 +398,43 @@ func family(c *engine.Ctx, name string, vs []value, eq equaler, checksum func(m 
 	}
 	// transitivity over all triples: one case per first index, matrix computed locally
 	c.Group(name + "-triples")
-	var mat [][]bool
+	// rows of the equality matrix are computed on demand (row i, and the rows of the values equal to i): a case costs
+	// O(n x size of i's class) comparisons instead of n^2
+	mat := make([][]bool, len(vs))
+	row := func(a int) []bool {
+		if mat[a] == nil {
+			r := make([]bool, len(vs))
+			for b := range vs {
+				r[b] = eq(vs[a].Msg, vs[b].Msg)
+			}
+			mat[a] = r
+		}
+		return mat[a]
+	}
 	for i := range vs {
 		i := i
-		c.Case(func() any { return map[string]any{"row": vs[i].Label, "triples": len(vs) * len(vs)} }, func(t *engine.T) *engine.Violation {
-			if mat == nil {
-				mat = make([][]bool, len(vs))
-				for a := range vs {
-					mat[a] = make([]bool, len(vs))
-					for b := range vs {
-						mat[a][b] = eq(vs[a].Msg, vs[b].Msg)
-					}
-				}
-			}
+		c.Case(func() any { return map[string]any{"row": vs[i].Label, "triples-with-this-first-element": len(vs) * len(vs)} }, func(t *engine.T) *engine.Violation {
+			mat = make([][]bool, len(vs)) // per run of the case (the rows depend on the map iteration order of the run)
+			ri := row(i)
 			for j := range vs {
-				if !mat[i][j] {
+				if !ri[j] {
 					continue
 				}
+				t.Alive()
+				rj := row(j)
 				for k := range vs {
-					if mat[j][k] && !mat[i][k] {
+					if rj[k] && !ri[k] {
 						return engine.Violate("transitive", "", "%s=%s and %s=%s but %s!=%s", vs[i].Label, vs[j].Label, vs[j].Label, vs[k].Label, vs[i].Label, vs[k].Label)
 					}
 				}
 			}
-			t.Transitions(len(vs) * len(vs))
+			rows := 0
+			for a := range mat {
+				if mat[a] != nil {
+					rows++
+				}
+			}
+			t.Transitions(rows * len(vs))
 			t.State(name + ":row:" + vs[i].Label)
 			t.Outcome(name + " transitive-row-ok")
 			return nil
